@@ -141,6 +141,7 @@ type TxResult struct {
 	Burnt  string `json:"burnt"`
 }
 type Result struct {
+	Final []Obs          `json:"final"`
 	Txs   []TxResult     `json:"txs"`
 	Logs  []LogObs       `json:"logs"`
 	Hits  []string       `json:"hits,omitempty"`
@@ -746,7 +747,8 @@ func run(c *Case) (*Result, error) {
 	if err != nil {
 		return nil, err
 	}
-	memdb := state.NewDatabase(youdb.NewMemDatabase())
+	disk := youdb.NewMemDatabase()
+	memdb := state.NewDatabase(disk)
 	db0, err := state.New(common.Hash{}, common.Hash{}, common.Hash{}, memdb)
 	if err != nil {
 		return nil, err
@@ -844,6 +846,7 @@ func run(c *Case) (*Result, error) {
 		codeId[crypto.Keccak256Hash(k.code)] = id
 	}
 	graveBal := map[common.Address]*big.Int{} // balance an account held when Finalise deleted it
+	var lastFinal []Obs
 	var thashes []common.Hash
 	for ti, tx := range c.txs() {
 		if !tx.Create {
@@ -1014,6 +1017,87 @@ func run(c *Case) (*Result, error) {
 		if want := new(big.Int).Sub(post.total(), deadSum); want.Cmp(fin.total()) != 0 {
 			hit(fmt.Sprintf("balance sum changed by Finalise beyond suicided accounts: %v -> %v (suicided held %v) [tx %d]", post.total(), fin.total(), deadSum, ti))
 		}
+		// a self-destructed account is gone after Finalise
+		for a, ad := range post.accts {
+			if ad.exists && ad.dead {
+				if y := fin.accts[a]; y != nil && y.exists {
+					hit(fmt.Sprintf("self-destructed account %x still exists after Finalise [tx %d]", a, ti))
+				}
+			}
+		}
+		// what Finalise leaves must be what a commit persists: commit a copy, flush it to disk, open a
+		// fresh StateDB on a fresh Database over the same disk and read every known account back
+		{
+			cp := db.Copy()
+			root, vr, sr, cerr2 := cp.Commit(true)
+			if cerr2 != nil {
+				return nil, fmt.Errorf("commit of the copy failed: %v", cerr2)
+			}
+			tdb := cp.Database().TrieDB()
+			for _, h := range []common.Hash{root, vr, sr} {
+				if h != (common.Hash{}) {
+					tdb.Commit(h, false)
+				}
+			}
+			fresh, ferr := state.New(root, vr, sr, state.NewDatabase(disk))
+			if ferr != nil {
+				return nil, fmt.Errorf("cannot reopen the committed state: %v", ferr)
+			}
+			sumLive, sumFresh := new(big.Int), new(big.Int)
+			var as []common.Address
+			for a := range fin.accts {
+				as = append(as, a)
+			}
+			sort.Slice(as, func(i, j int) bool { return bytes.Compare(as[i][:], as[j][:]) < 0 })
+			lastFinal = nil
+			for _, a := range as {
+				x := fin.accts[a]
+				fe := fresh.Exist(a)
+				if x.exists {
+					sumLive.Add(sumLive, x.bal)
+				}
+				if fe {
+					sumFresh.Add(sumFresh, fresh.GetBalance(a))
+				}
+				what := ""
+				switch {
+				case x.exists != fe:
+					what = fmt.Sprintf("existence %v vs %v", x.exists, fe)
+				case !fe:
+				case x.nonce != fresh.GetNonce(a):
+					what = fmt.Sprintf("nonce %d vs %d", x.nonce, fresh.GetNonce(a))
+				case x.bal.Cmp(fresh.GetBalance(a)) != 0:
+					what = fmt.Sprintf("balance %v vs %v", x.bal, fresh.GetBalance(a))
+				case x.code != fresh.GetCodeHash(a):
+					what = "code differs"
+				default:
+					for _, k := range keys {
+						if lv, fv := db.GetState(a, k), fresh.GetState(a, k); lv != fv {
+							what = fmt.Sprintf("slot %x reads %x vs %x", k, lv, fv)
+							break
+						}
+					}
+				}
+				if what != "" {
+					hit(fmt.Sprintf("committed state differs from the live state after Finalise: account %x: %s (live vs reopened) [tx %d]", a, what, ti))
+				}
+				if sym, ok := symOf[a]; ok {
+					o := Obs{A: sym, Exists: fe, Nonce: fresh.GetNonce(a), Bal: new(big.Int).Abs(fresh.GetBalance(a)).String()}
+					id, ok := codeId[fresh.GetCodeHash(a)]
+					if !ok {
+						id = 999999
+					}
+					o.Code = id
+					for _, k := range keys {
+						o.Stor = append(o.Stor, [2]string{new(big.Int).SetBytes(k[:]).String(), new(big.Int).SetBytes(fresh.GetState(a, k).Bytes()).String()})
+					}
+					lastFinal = append(lastFinal, o)
+				}
+			}
+			if sumLive.Cmp(sumFresh) != 0 {
+				hit(fmt.Sprintf("balance sum of the committed state differs from the live one: %v vs %v [tx %d]", sumLive, sumFresh, ti))
+			}
+		}
 		// storage must read the same before and after Finalise for the accounts that stay
 		for a, x := range post.accts {
 			y := fin.accts[a]
@@ -1026,6 +1110,7 @@ func run(c *Case) (*Result, error) {
 			}
 		}
 	}
+	res.Final = lastFinal
 	for _, th := range thashes {
 		for _, l := range db.GetLogs(th) {
 			sym, ok := symOf[l.Address]
@@ -1161,6 +1246,13 @@ func caseCoq(c *Case, r *Result) string {
 			sb.WriteString("; ")
 		}
 		sb.WriteString(fmt.Sprintf("(%s, %s, %d)", addrCoq(&l.A), nums(l.Topics), l.Dlen))
+	}
+	sb.WriteString("]\n [")
+	for i, o := range r.Final {
+		if i > 0 {
+			sb.WriteString("; ")
+		}
+		sb.WriteString(fmt.Sprintf("mkObs %s %v %d %s %d %v %s", addrCoq(&o.A), o.Exists, o.Nonce, big10(o.Bal), o.Code, o.Dead, pairsAllCoq(o.Stor)))
 	}
 	sb.WriteString("]")
 	return sb.String()
